@@ -9,11 +9,15 @@ PROP = dict(
              "BeginBlocker each preceded by up to 2 user steps: price moves incl. threshold+-1 and inactive prices, vault create / close, "
              "MsgLiquidateInternalKeeper on open and unknown ids, accrued-interest edits, kill switch / ESM toggles, LengthOfVault edits "
              "(counter != list length, incl. wrap below zero)); every 4th case is a quiet starvation run (one price drop, then only blocks); "
-             "4 directed witness schedules run last, and V2 cases with 1-8 lend borrows over one pool; "
+             "5 directed schedules run last (the two C09-F1 witnesses on both generations, and the regression of the repaired C09-F2: "
+             "2 vaults, batch 1, second unsafe, V2); the V2 projection holds both sweep offsets (key 0 vaults, key 1 borrows); "
+             "the populations hold no lend borrows (the borrow rules and the borrow sweep are proved on the model only); "
              "non-trivial = at least one position was seized in the case; distinct by digest of (kind, generation, batch, per-block seized ids, messages)",
         modelled=["the seizure's book-keeping beyond custody (locked-vault record fields, auction prices, interest accrual inside the seizure) "
                   "is judged by predicate on the implementation, not re-computed",
                   "capacity of the Go slice GetVaults returns is an env input measured by the harness (append growth policy)",
+                  "the V2 borrow sweep and the borrow seize rule have no harness workload (no lend borrows in the C09 populations); C15's "
+                  "crash-point run drives the real LiquidateBorrows on liquidatable borrows",
                   "ESM price-snapshot branch of CalculateCollateralizationRatio is modelled but unreachable from the sweeps (ESM on blocks them first)"],
         assumptions=["vault ids are assigned in increasing order and the KV iteration order is by id (big-endian keys)",
                      "liveness theorems: batch >= 1, counter = list length, controls off, prices active, liquidation and its auction enabled"],
@@ -23,9 +27,12 @@ MANIFEST = dict(
     level_text="Safety (no position at or above its liquidation ratio / at or below its threshold is ever seized, by any sweep of either "
                "generation or by the liquidate message) proved for every population, offset, batch size, counter value and slice capacity; "
                "slice bounds proved; liveness proved by induction for the single-offset sweep with an explicit bound in blocks that holds for "
-               "every price path and every interleaving of creations / closes of other positions; the literal 'two full sweeps' bound and "
-               "V2 liveness are proved refuted and listed as known findings with witnesses replayed on the real keepers. Model tied to /repo "
-               "by a differential run of the real BeginBlockers and messages on every check.",
+               "every price path and every interleaving of creations / closes of other positions; the liquidationsV2 hook is proved to be that "
+               "sweep on the vault list and an independent, per-item wrapped sweep on the borrow list (after the fixes C09-F2: own offset key, "
+               "C09-F3: ApplyFuncIfNoError per borrow), and the borrow sweep is proved live for every verdict of the other borrows, errors and "
+               "panics included (quiet chain: within (n-1)/batch+2 blocks, i.e. within the literal 'two full sweeps'); the literal 'two full "
+               "sweeps' bound for vaults is proved refuted and listed as a known finding with witnesses replayed on the real keepers. Model "
+               "tied to /repo by a differential run of the real BeginBlockers and messages on every check.",
     design_ref="DESIGN.md section 4 C09",
     level_note="Trusted: Coq kernel, extraction (ExtrOcamlBasic), OCaml runner, Go harness. No axioms (Closed under the global context).",
     technique="Coq proof (decision rule + potential-function induction over event histories) + model/implementation correspondence run",
